@@ -133,6 +133,11 @@ type Transport struct {
 	// message the client writes in several pieces, so that a close of the
 	// request body can land in the middle of a Write.
 	ReqChunk int
+	// CauseFromDo: when the context ends before the response headers arrive,
+	// Do fails with context.Cause(ctx) rather than ctx.Err(), as net/http's
+	// HTTP/1.1 transport does (the two differ for contexts ended with a
+	// caller-supplied cause).
+	CauseFromDo bool
 	// PromptCancel restores an idealised transport that notices the end of the
 	// request context at once in every state (HTTP/1.1 does; HTTP/2 does not
 	// while its body sender is blocked reading an idle request body).
@@ -552,6 +557,9 @@ func (t *Transport) Do(req *http.Request) (*http.Response, error) {
 	default:
 		if ctx.Err() != nil {
 			t.gate("T.Do.ctxdone")
+			if t.CauseFromDo {
+				return nil, urlErr(context.Cause(ctx))
+			}
 			return nil, urlErr(ctx.Err())
 		}
 		t.gate("T.Do.aborted")
